@@ -125,7 +125,7 @@ def judge_stack(rec, k, md, report, counts, fresh_md=None):
         if i >= kk:
             break
         node, why = find_layer(parent, lay, off, length)
-        if node is None and i == 0:
+        if node is None and i == 0 and not rec.get("strict"):
             other = swallowed_by(root, off, off + length, same=((lay["type"], lay["label"]),))
             if other is not None:
                 counts["discarded:blob-plus-neighbour-text-is-another-decoding"] = counts.get("discarded:blob-plus-neighbour-text-is-another-decoding", 0) + 1
